@@ -243,6 +243,14 @@ def check_type(sh, shape, rng, case):
     sh.count("layout_comparisons")
     if readback(shape, fb2) != R.unpack(shape, b) or int(fb2.to_bits().uint()) != b:
       W("from_bits-random-roundtrip", packed=hex(b), got=readback(shape, fb2), expected=R.unpack(shape, b))
+    # equality with the packed VALUE itself (a Bits of the same width): the same answer whichever operand stands on the left
+    for (pv, same) in ((Bits(total, exp), True), (Bits(total, exp ^ 1), False)):
+      try: r1, r2, n1, n2 = (o == pv), (pv == o), (o != pv), (pv != o)
+      except (TypeError, ValueError): sh.count("eq_with_packed_value_refused"); break
+      sh.count("eq_with_packed_value_comparisons")
+      if not (bool(r1) == bool(r2) == same) or not (bool(n1) == bool(n2) == (not same)):
+        W("eq-of-struct-and-its-packed-value-depends-on-operand-order-or-ignores-the-value", value=v, packed=hex(int(pv)), struct_eq_bits=repr(r1), bits_eq_struct=repr(r2),
+          struct_ne_bits=repr(n1), bits_ne_struct=repr(n2)); break
     # equality / hash vs packed equality
     others = [(fb, exp), (fb2, b)]
     if prev is not None:
